@@ -93,7 +93,16 @@ func (s *Session) execCallWith(st *State, c *ssa.CallCommon, fnv Value, args []V
 		// dynamic call of an unknown function value
 		fv := s.asTerm(fnv, c.Value.Type())
 		s.check(st, "safe.nil", s.obl("safe.nil", "funcvalue"), Ne(fv, TZero), pos)
-		if cs := s.callsiteSpec("funcvalue:" + c.Value.Name()); cs != nil && len(cs.Assume) > 0 {
+		fvName := c.Value.Name()
+		if u, ok := c.Value.(*ssa.UnOp); ok {
+			if a, ok := u.X.(*ssa.Alloc); ok {
+				fvName = a.Comment
+			}
+			if fv, ok := u.X.(*ssa.FreeVar); ok {
+				fvName = fv.Name()
+			}
+		}
+		if cs := s.callsiteSpec("funcvalue:" + fvName); cs != nil && len(cs.Assume) > 0 {
 			// an explicit, listed assumption about this dynamic call
 			s.note("assumed: dynamic call " + c.Value.Name() + " " + cs.Assume[0].Src)
 			k(st, s.freshResults(st, sig, "dyn"))
@@ -106,6 +115,41 @@ func (s *Session) execCallWith(st *State, c *ssa.CallCommon, fnv Value, args []V
 	}
 	if v, ok := s.atomicCall(st, callee, args, pos); ok {
 		k(st, v)
+		return
+	}
+	if callee.Pkg != nil && callee.Pkg.Pkg.Path() == "sync" && callee.Name() == "Do" && len(args) == 2 {
+		// (*sync.Once).Do(f): assumed contract of sync.Once — f runs iff the Once has not fired yet
+		// (ghost onceDone), and every caller returns after f has completed
+		s.trusted["sync.(*Once).Do"] = true
+		once := s.asTerm(args[0], nil)
+		so := ArrSort(SInt, SBool)
+		s.check(st, "safe.nil", s.obl("safe.nil", "once"), Ne(once, TZero), pos)
+		done := Select(s.H(st, "G_onceDone", so), once)
+		st2 := st.clone()
+		st.assume(Not(done))
+		st.path = append(st.path, "o")
+		s.setH(st, "G_onceDone", so, Store(s.H(st, "G_onceDone", so), once, TTrue))
+		fnv := args[1]
+		if t, isT := fnv.(Term); isT {
+			if v, found := escapeTable[t.S]; found {
+				fnv = v
+			}
+		}
+		if cl, isC := fnv.(*Closure); isC && cl.Fn.Blocks != nil {
+			cpkg, crel := s.P.qualName(cl.Fn)
+			if ccon := s.P.contractOf(cpkg, crel); ccon != nil {
+				s.applyContract(st, ccon, cl.Fn, cl.Fn.Signature, append([]Value{}, cl.Bind...), s.P.fnName(cl.Fn), pos, func(st *State, _ Value) { k(st, Unit{}) })
+			} else {
+				s.inlineCall(st, cl.Fn, cl.Bind, nil, pos, func(st *State, _ Value) { k(st, Unit{}) })
+			}
+		} else {
+			s.note("sync.Once.Do with a function value that is not a literal closure: havoc all")
+			s.havocAll(st)
+			k(st, Unit{})
+		}
+		st2.assume(done)
+		st2.path = append(st2.path, "O")
+		k(st2, Unit{})
 		return
 	}
 	pkg, rel := s.P.qualName(callee)
